@@ -25,7 +25,16 @@ def eraseV (es : List (κ × β)) (k : κ) : List (κ × β) := es.filter (fun e
 
 end assoc
 
-/-- `AttributeLength()` read off the observable value: length of the first attribute found, v4 first -/
+/-- all attribute lengths of an observable value -/
+def lensObs (o : MeshObs κ α) : List Nat := (o.attrs.flatMap id).map fun e => e.2.length
+
+/-- one common attribute length (what every generator and every well-formed mesh has) -/
+def Uniform (o : MeshObs κ α) : Prop := ∀ x ∈ lensObs o, ∀ y ∈ lensObs o, x = y
+
+/-- what Go's `AttributeLength()` may answer for a mesh showing `o`: the length of some attribute, or 0 when there is none -/
+def IsAttrLen (o : MeshObs κ α) (n : Nat) : Prop := n ∈ lensObs o ∨ (lensObs o = [] ∧ n = 0)
+
+/-- one resolution of `AttributeLength()` read off the observable value: first attribute found, v4 first -/
 def attrLenObs (o : MeshObs κ α) : Nat :=
   match (o.attrs.reverse.flatMap id) with
   | [] => 0
@@ -66,13 +75,14 @@ def pureMaps (E : Env α) (aLen bLen : Nat) :
   | [], os => pureMapsB E aLen bLen os
   | a :: ms, os => pureKind E aLen bLen a (headV os) :: pureMaps E aLen bLen ms os.tail
 
-/-- `a.Append(b)` on values: `none` = panic (different topologies) -/
-def pureAppend (E : Env α) (a b : MeshObs κ α) : Option (MeshObs κ α) :=
+/-- `a.Append(b)` on values, given what the two `AttributeLength()` calls resolved to (`aLen`, `bLen`): a function of the two
+    observable values AND of that resolution.  `none` = panic (different topologies) -/
+def pureAppend (E : Env α) (aLen bLen : Nat) (a b : MeshObs κ α) : Option (MeshObs κ α) :=
   if a.topo ≠ b.topo then none else
   some { topo := a.topo
-         indices := a.indices ++ b.indices.map (E.shift (attrLenObs a))
+         indices := a.indices ++ b.indices.map (E.shift aLen)
          materials := a.materials ++ b.materials
-         attrs := pureMaps E (attrLenObs a) (attrLenObs b) a.attrs b.attrs }
+         attrs := pureMaps E aLen bLen a.attrs b.attrs }
 
 /-- the contents part of a caller-built map -/
 def entriesV (es : List (κ × List α × Nat)) : List (κ × List α) := es.map fun e => (e.1, e.2.1)
@@ -84,10 +94,10 @@ def pureOp (E : Env α) (pool : List (MeshObs κ α)) : Op κ α → Option (Lis
   | .setIndices m idx _ => do let r ← pool[m]?; pure [{ r with indices := idx }]
   | .setMaterials m mats _ => do let r ← pool[m]?; pure [{ r with materials := mats }]
   | .shareMaterials m src => do let r ← pool[m]?; let q ← pool[src]?; pure [{ r with materials := q.materials }]
-  | .toPointCloud m pt => do
+  | .toPointCloud m pt n => do
     let r ← pool[m]?
     if r.topo = pt then pure [r] else
-    pure [{ r with indices := (List.range (attrLenObs r)).map E.ident, topo := pt }]
+    pure [{ r with indices := (List.range n).map E.ident, topo := pt }]
   | .clearAttrs m => do let r ← pool[m]?; pure [{ r with attrs := r.attrs.map fun _ => [] }]
   | .setData m kind es => do let r ← pool[m]?; pure [{ r with attrs := r.attrs.set kind (entriesV es) }]
   | .setAttr m kind name data _ => do
@@ -106,12 +116,12 @@ def pureOp (E : Env α) (pool : List (MeshObs κ α)) : Op κ α → Option (Lis
     let r ← pool[m]?
     pure [⟨topo, idx, (match mm with | .share => r.materials | .drop => []), attrs.map entriesV⟩]
   | .readOnly m => do let _ ← pool[m]?; pure []
-  | .append m o => do
+  | .append m o aLen bLen => do
     let r ← pool[m]?
     let q ← pool[o]?
-    let x ← pureAppend E r q
+    let x ← pureAppend E aLen bLen r q
     pure [x]
-  | .appendOld _ _ => none   -- the pre-74db58f Append has no value-level meaning (its result depends on the heap)
+  | .appendOld _ _ _ _ => none   -- the pre-74db58f Append has no value-level meaning (its result depends on the heap)
 
 end append
 
